@@ -46,17 +46,20 @@ type cliWorld struct {
 	onTracksDelay time.Duration // simulated time the user's OnTracks callback takes
 	closedAt      time.Duration
 	closeCalls    int
-	started       bool
-	limit         time.Duration
-	afterWait     time.Duration // how long to keep observing after Wait yielded
-	onEvent       func(ev int)  // called before each pump iteration with the event counter
-	events        int
-	stuckProbe    bool
-	stopWaiter    chan struct{}
-	closedFirst   bool
-	lastNow       time.Duration
-	lastReqs      int
-	zeroTimeReqs  int
+	// Close is called from inside the n-th user callback (0: never), i.e. on one of the client's own goroutines
+	closeAtCallback  int
+	closedInCallback bool
+	started          bool
+	limit            time.Duration
+	afterWait        time.Duration // how long to keep observing after Wait yielded
+	onEvent          func(ev int)  // called before each pump iteration with the event counter
+	events           int
+	stuckProbe       bool
+	stopWaiter       chan struct{}
+	closedFirst      bool
+	lastNow          time.Duration
+	lastReqs         int
+	zeroTimeReqs     int
 }
 
 var clientDelaySites = []string{"client.leadingTimeConv.set", "client.leadingTimeConv.got", "client.processor.afterPull",
@@ -112,7 +115,18 @@ func (w *cliWorld) cb() {
 	if w.waitSeen {
 		w.cbAfterWait++
 	}
+	closeNow := w.closeAtCallback > 0 && w.callbacks == w.closeAtCallback
+	if closeNow {
+		w.closeCalls++
+		w.closedAt = w.r.Now()
+		w.closedFirst = !w.waitSeen
+		w.closedInCallback = true
+	}
 	w.mu.Unlock()
+	if closeNow {
+		w.r.Fault("close")
+		w.c.Close() // on the client's own goroutine, inside the user's callback
+	}
 }
 
 func (w *cliWorld) onTracks(tracks []*gohlslib.Track) error {
